@@ -7,9 +7,12 @@ def trace_inputs(run, hz, inputs, module="TraceStats", nproc=None, timeout=3000)
     if not inputs:
         return
     from concurrent.futures import ThreadPoolExecutor
-    k = max(1, min(nproc or 8, len(inputs)))
+    # few processes, each with inputs of several lengths in descending order (the driver then repeats them ascending):
+    # a result must not depend on the lengths the process has handled before
+    k = max(1, min(nproc or 8, (len(inputs) + 2) // 3))
     tmp = vlib.scratch("statt")
-    parts = [inputs[i::k] for i in range(k)]
+    srt = sorted(inputs, key=lambda x: -x["n"])
+    parts = [srt[i::k] for i in range(k)]
 
     def one(idx):
         jp = os.path.join(tmp, "j%d.json" % idx); op = os.path.join(tmp, "o%d.ndjson" % idx)
